@@ -68,6 +68,9 @@ void action(char a, int fresh)
         return;
     }
     if (a == 'a') {
+        while (g.dtors.count(fresh) != 0U) {
+            fresh += 1000;  // ids stay unique even when faulty code runs a callback twice
+        }
         Ptr p = do_new(fresh, 'p', 'p');
         g.refs[verif::self()][fresh].pop_back();  // the reference just created is the one handed over
         do_add(std::move(p), fresh, true);
